@@ -423,6 +423,12 @@ impl Property for C03 {
         }
     }
 
+    fn hang_signature(&self) -> Option<&'static str> {
+        // compilation must terminate: a small text that keeps the compiler busy for a minute of
+        // CPU time (normal: microseconds) is reported, with the text as the replay
+        Some("compile-does-not-terminate")
+    }
+
     fn floors(&self, _tier: Tier) -> Vec<(&'static str, u64)> {
         vec![("accepted", 200), ("rejected", 2000), ("errors>=2", 100)]
     }
